@@ -14,8 +14,17 @@
                 `Gen.SerialIntf.readCount` applied to `in_waiting` (in the pinned source: `in_waiting` itself,
                 i.e. everything waiting).  A size larger than what is waiting makes pyserial wait for
                 more until the port timeout; this is recorded as `blocked`.
-    readError   the port raises `serial.SerialException` → the handler returns `b""`; the bytes stay in
-                the OS buffer
+    readError   EXACTLY the `except serial.SerialException` branch of `SerialDevice._read`: the expression
+                `self._ser.read(self._ser.in_waiting)` raised a `serial.SerialException` (or a subclass) → the handler
+                returns `b""`; nothing was taken from the OS buffer.  That the handler has this shape is a translator
+                fact (`Gen.SerialIntf`, theorem `source_shape`); what the op does is the definition of the model, not a
+                consequence of anything.  Which failures of a real port arrive as a `SerialException` is NOT modelled:
+                with pyserial 3.5 on posix only `Serial.read` raises one (`os.read`/`select` failing, "device reports
+                readiness to read but returned no data"); `Serial.in_waiting` is a bare `ioctl(TIOCINQ)` and raises
+                `OSError(EIO)` after the other end of a tty went away (adapter unplugged) and `TypeError` on a closed
+                port — neither is a `SerialException`, neither is caught by `_read`, both leave `read()` as an
+                exception (recorded on every run, not judged: evidence `coverage.pty.hangup_probe`).  The property
+                sentence of C18 does not speak about errors; this op is outside it.
     dropAll     `drop_all`: read and discard until `Gen.SerialIntf.dropAllPolls` reads came back empty
   and for the other end: `peerSend d`, `peerRecv` (takes everything that has arrived).
 
@@ -112,6 +121,8 @@ inductive Op where
   | write (d : Bytes)
   | setPad (p : Nat)
   | read
+  /-- the `except serial.SerialException` branch of `_read` was taken (nothing else: an `OSError` / `TypeError` out of
+      `in_waiting` — what a hang-up or a closed port produce with pyserial 3.5 — is not this op and is not modelled) -/
   | readError
   | dropAll
   | peerSend (d : Bytes)
